@@ -18,6 +18,7 @@ def run(F, R, ctx):
     stats_flow_rule(F, R)
     entry_cleanup_rule(F, R)
     queue_entry_rule(F, R)
+    bounded_threshold_rule(F, R)
 
 
 def _run(F, R, ctx):
@@ -372,3 +373,38 @@ def queue_entry_rule(F, R):
                    "thread that spawns workers and registers again before its next allocation grows by the workers' closures "
                    "every round)" % (fn.short(), fld, b.get("line")), fn.loc(b.get("line")), sample=True)
     R.floor("C19.q", "sites that add an entry to the merge-queue maps (insert / entry)", n, 2)
+
+
+def bounded_threshold_rule(F, R):
+    R.rule("C19.r", "the recycling threshold of shadowed global slots is bounded: in compiler::map every function that stores a "
+                    "multiple of FreeList.threshold back into it (a multiplication, saturating / checked or not, with the "
+                    "threshold as an operand) also stores a constant into it on another path (the cycle of generations comes back to "
+                    "the base value). A threshold that only grows lets dead values of redefined globals stay roots for "
+                    "geometrically longer stretches: an engine that keeps redefining globals no longer runs in bounded memory")
+    n = 0
+    for name, fn in sorted(F.fns.items()):
+        if not name.startswith("steel::compiler::map::") or fn.d["kind"] == "Closure":
+            continue
+        writes = [(i, e) for i, _, e in fn.events("st") if re.search(r"\.threshold$", str(e[1]))]
+        if not writes:
+            continue
+        grows = False
+        for i, b in enumerate(fn.blocks):
+            if b["c"]:
+                continue
+            for e in b["e"]:
+                if e[0] == "binop" and e[1] in ("Mul", "MulWithOverflow") and any(re.search(r"\.threshold$", str(x)) for x in e[5:]):
+                    grows = True
+            if b["k"] == "call" and re.search(r"::(saturating_mul|checked_mul|wrapping_mul|pow|saturating_pow)$", b["callee"]) and b["args"]:
+                if any(re.search(r"\.threshold$", s_) for a in b["args"] for s_ in lib.alias_sources(fn, a.split(".")[0])):
+                    grows = True
+        if not grows:
+            continue
+        n += 1
+        resets = [i for i, e in writes if str(e[2]).startswith("const")]
+        R.inst("C19.r", "%s / a multiplied threshold is also reset" % fn.short(), bool(resets),
+               "%s multiplies FreeList.threshold and never stores a constant into it: the number of redefinitions between two runs of "
+               "the shadowed-slot recycler grows without bound (1600, 3200, 6400, …), and the dead values those slots hold stay "
+               "roots in between — 6100 redefinitions of one global holding a 64 KiB string: 282 MiB resident instead of 102" % fn.short(),
+               fn.loc(), sample=True)
+    R.floor("C19.r", "functions that multiply the recycling threshold", n, 1)
